@@ -289,6 +289,7 @@ type ValCfg struct {
 	RawInvalid   bool                          // jsontext.Value leaves may hold arbitrary bytes
 	TimeWide     bool                          // times outside year 0..9999
 	Zones        bool                          // times carry fixed zones with arbitrary (also hostile) names
+	ZoneMinutes  bool                          // times carry unnamed fixed zones at whole-minute offsets up to +-23:59
 }
 
 var int64Edges = []int64{0, 1, -1, 2, 7, 10, 100, 127, 128, -128, -129, 255, 256, 32767, 32768, -32768, 65535, 65536, 1<<31 - 1, 1 << 31, -(1 << 31), 1<<32 - 1, 1 << 32, 1<<53 - 1, 1 << 53, 1<<53 + 1, -(1 << 53) - 1, math.MaxInt64, math.MinInt64, math.MaxInt64 - 1, math.MinInt64 + 1, 999999999, 1000000000, 1000000001, -999999999, -1000000000, -1000000001, 9999999999999, 1e15, 1e18, 1e18 + 1, -1e18}
@@ -438,6 +439,12 @@ func (g *valGen) val(d *Desc, budget int) Val {
 		if g.vc.Zones && rapid.IntRange(0, 2).Draw(t, "zone?") == 0 {
 			tv.S = []byte(rapid.SampledFrom([]string{"UTC", "MST", "CEST", "", "Q\"Z", "a\\b", "x\ny", "\xff", "<&>", "é", "+0130", "-07"}).Draw(t, "zonename"))
 			tv.U = uint64(int64(rapid.SampledFrom([]int{0, 3600, -25200, 5400, 1, -1, 86399}).Draw(t, "zoneoff")))
+			tv.B = true
+		}
+		if !g.vc.Zones && g.vc.ZoneMinutes && rapid.IntRange(0, 1).Draw(t, "zonemin?") == 0 && sec > -62135510400 && sec < 253402214400 {
+			// (a day inside the years 1..9999, so that the local year stays in range)
+			tv.S = []byte{}
+			tv.U = uint64(int64(rapid.SampledFrom([]int{0, 3600, -25200, 5400, 20700, 43200, -43200, 82800, -82800, 86340, -86340, 50400, 79200, -79200}).Draw(t, "zonemin")))
 			tv.B = true
 		}
 		return tv
